@@ -7,6 +7,8 @@
 (3) operation-granularity interleavings of edit scripts on different trees in one thread."""
 from __future__ import annotations
 
+import ast
+
 import itertools
 
 from .. import sched as S
@@ -526,8 +528,93 @@ def inventory(fst, res):
         res.outcomes['unowned-shared-state-listed'] += 1
 
 
+def run_option_values(fst, res):
+    """Option *values* that are mutable objects (the extra operator `op` as a list of lines or as an FST; code passed as a list):
+    an edit must not modify them, neither the caller's object nor the stored default, and repeating the same call must give the
+    same result. Exhaustive over value form x way the option is supplied x side x 3 repetitions."""
+    FST = fst.FST
+    forms = {
+        'str': lambda: '<', 'list': lambda: ['<'], 'list2': lambda: [' <'], 'fst': lambda: FST('<', 'cmpop'),
+        'ast': lambda: ast.Lt(), 'type': lambda: ast.Lt,
+    }
+
+    def snap(v):
+        if isinstance(v, list):
+            return ('list', tuple(v))
+        if isinstance(v, FST):
+            return ('fst', v.src, ast.dump(v.a) if v.a is not None else None)
+        if isinstance(v, ast.AST):
+            return ('ast', ast.dump(v))
+        return ('val', repr(v))
+
+    base = FST.get_options()
+    for fname, mk in forms.items():
+        for how in ('call', 'block', 'set'):
+            for side in ('left', 'right'):
+                for src, start in (('a == b == c', 1), ('a is b', 1), ('a < b', 2)):
+                    cid = f'C20/optval/op={fname}/{how}/{side}/{src!r}@{start}'
+                    rep = {'optval': [fname, how, side, src, start]}
+                    res.evals += 1
+                    op = mk()
+                    before = snap(op)
+                    outs = []
+                    try:
+                        for _ in range(3):
+                            f = FST(src, 'expr')
+                            res.transitions += 1
+                            if how == 'call':
+                                f.put_slice('x', start, start, op=op, op_side=side)
+                            elif how == 'block':
+                                with FST.options(op=op, op_side=side):
+                                    f.put_slice('x', start, start)
+                                    stored = snap(FST.get_option('op'))
+                                    if stored != before:
+                                        res.fail(cid, 'stored-option-value-modified-by-edit', f'{stored} != {before}', {}, rep)
+                            else:
+                                old = FST.set_options(op=op, op_side=side)
+                                try:
+                                    f.put_slice('x', start, start)
+                                    stored = snap(FST.get_option('op'))
+                                finally:
+                                    FST.set_options(**old)
+                                if stored != before:
+                                    res.fail(cid, 'stored-option-value-modified-by-edit', f'{stored} != {before}', {}, rep)
+                            outs.append(f.src)
+                    except Exception as e:  # noqa: BLE001
+                        outs.append('EXC:' + e.__class__.__name__)
+                        FST.set_options(**base)
+                    res.traces += 1
+                    if snap(op) != before:
+                        res.fail(cid, 'option-value-object-modified-by-edit', f'before={before} after={snap(op)} results={outs}', {}, rep)
+                    elif len(set(outs)) != 1:
+                        res.fail(cid, 'same-call-different-result', f'{outs}', {}, rep)
+                    else:
+                        res.nontriv('optval', fname, how, side, src)
+                    if FST.get_options() != base:
+                        res.fail(cid, 'options-not-restored', '', {}, rep)
+                        FST.set_options(**base)
+    # code given as a list of lines must not be modified either
+    for src, code in (('[a, b]', ['x,', ' y']), ('f(a)', ['k=v']), ('if a: pass', ['b = 1', 'c = 2'])):
+        cid = f'C20/optval/code-lines/{src!r}'
+        res.evals += 1
+        lines = list(code)
+        outs = []
+        for _ in range(2):
+            f = FST(src, 'exec')
+            n = f.body[0].value if hasattr(f.body[0], 'value') else f.body[0]
+            fld = 'elts' if src.startswith('[') else 'keywords' if src.startswith('f(') else 'body'
+            try:
+                n.put_slice(lines, 0, 0, fld)
+                outs.append(f.src)
+            except Exception as e:  # noqa: BLE001
+                outs.append('EXC:' + e.__class__.__name__)
+        res.traces += 1
+        if lines != code or len(set(outs)) != 1:
+            res.fail(cid, 'code-lines-modified-by-edit', f'{lines} results={outs}', {}, {'optval': ['code', src]})
+
+
 def shards(tier):
-    out = [{'kind': 'inventory'}, {'kind': 'oplevel'}]
+    out = [{'kind': 'inventory'}, {'kind': 'oplevel'}, {'kind': 'optval'}]
     M = 16
     out += [{'kind': 'proto', 'depth': 4 if tier == 'quick' else 5, 'part': [r, M]} for r in range(M)]
     for name in ('block+default', 'set+exc', 'exc+default') + (('block+set+default',) if tier == 'thorough' else ()):
@@ -557,6 +644,8 @@ def run_shard(desc, tier, res):
         inventory(fst, res)
     elif k == 'oplevel':
         run_oplevel(fst, res)
+    elif k == 'optval':
+        run_option_values(fst, res)
     elif k == 'proto':
         if desc['part'][0] % 2:  # half of the histories run in a non-main thread (the option store is thread-local: whatever is
             import threading    # bound to the importing thread at import time must not be what other threads read)
@@ -580,7 +669,9 @@ def run_shard(desc, tier, res):
 
 def replay(rep, res):
     import fst
-    if 'hist' in rep:
+    if 'optval' in rep:
+        run_option_values(fst, res)
+    elif 'hist' in rep:
         run_history(fst, [tuple(x) for x in rep['hist']], res, 'replay')
     elif 'choices' in rep:
         want = solo(fst, rep['scenario'])
